@@ -390,7 +390,7 @@ def shrink(tmp, case, route, base, var, kind, budget=40):
 
 def e2e(ctx):
     thorough = ctx.tier == "thorough"
-    cases = gen_cases(ctx, 36 if not thorough else 150)
+    cases = gen_cases(ctx, 36 if not thorough else 190)
     reported = set()
     with core.Scratch("vc08e_") as tmp:
         tmp = os.path.realpath(tmp)
